@@ -178,6 +178,12 @@ struct Plan
   bool viaAdapter = false;   // call through TimingWheelAdapter (ITimerService)
   // service configuration
   int poolSize = 0;  // 0 = single TimerService
+  int poolSelect = 0; // how services are obtained from the pool: 0 getService (round robin), 1 getLeastLoadedService, 2 mixed per slot
+  // TimerServiceConfig (every field the config has)
+  bool cfgStats = true, cfgDetailedLog = false, cfgThrowOnSysErr = false, cfgSetPrio = false, cfgCustomLogger = false;
+  int cfgMaxEpollEvents = 16, cfgEpollTimeoutMs = -1, cfgHeapCap = 256, cfgThreadName = 0;
+  int cfgMaxTimers = 10000, cfgMaxPeriodic = 1000, cfgMaxHeap = 50000, cfgMaxTimeoutMin = 24 * 60, cfgMaxHandlerMs = 30000;
+  bool wheelErrorCb = false; // TimingWheel::setErrorCallback
   int nActors = 1;
   std::vector<SlotPlan> slots;
   std::vector<Op> ops;
@@ -206,11 +212,20 @@ std::string renderPlan(const Plan &p)
   pbt::Fmt f;
   if (p.wheel)
     f << "TimingWheel(tick=" << p.tickMs << "ms,ticksPerWheel=" << p.ticksPerWheel << ",numWheels=" << p.numWheels
-      << (p.inlineDispatcher ? ",inline-dispatcher" : "") << (p.viaAdapter ? ",via-adapter" : "") << ")";
-  else if (p.poolSize)
-    f << "TimerServicePool(" << p.poolSize << ")";
+      << (p.inlineDispatcher ? ",inline-dispatcher" : "") << (p.viaAdapter ? ",via-adapter" : "")
+      << (p.wheelErrorCb ? ",error-callback" : "") << ")";
   else
-    f << "TimerService";
+  {
+    if (p.poolSize)
+      f << "TimerServicePool(" << p.poolSize << "," << (p.poolSelect == 0 ? "getService" : p.poolSelect == 1 ? "getLeastLoadedService" : "mixed-selection") << ")";
+    else
+      f << "TimerService";
+    f << "{stats=" << p.cfgStats << ",detailedLog=" << p.cfgDetailedLog << ",throwOnSysErr=" << p.cfgThrowOnSysErr
+      << ",setPrio=" << p.cfgSetPrio << ",customLogger=" << p.cfgCustomLogger << ",maxEpollEvents=" << p.cfgMaxEpollEvents
+      << ",epollTimeout=" << p.cfgEpollTimeoutMs << "ms,heapCap=" << p.cfgHeapCap << ",threadName=" << p.cfgThreadName
+      << ",maxTimers=" << p.cfgMaxTimers << ",maxPeriodic=" << p.cfgMaxPeriodic << ",maxHeap=" << p.cfgMaxHeap
+      << ",maxTimeout=" << p.cfgMaxTimeoutMin << "min,maxHandler=" << p.cfgMaxHandlerMs << "ms}";
+  }
   f << " actors=" << p.nActors << (p.restart ? " restart" : "") << " probes=" << p.postStopProbes << "\n slots:";
   for (std::size_t i = 0; i < p.slots.size(); ++i)
   {
@@ -327,28 +342,75 @@ struct Target
   virtual void destroy() = 0;
 };
 
+struct QuietLogger : iora::core::TimerLogger
+{
+  std::atomic<long> n{0};
+  void log(Level, const std::string &, iora::core::TimerError, int) override { n.fetch_add(1); }
+};
+
 struct SvcTarget : Target
 {
   std::unique_ptr<TimerService> single;
   std::unique_ptr<TimerServicePool> pool;
-  std::vector<TimerService *> all;
+  int poolSelect = 0;
+  std::mutex seenMu;
+  std::vector<TimerService *> all; // services that were handed out (the pool offers no enumeration;
+                                   // enumerating through getService() would move its round-robin cursor)
 
-  explicit SvcTarget(int poolSize)
+  static iora::core::TimerServiceConfig makeConfig(const Plan &p)
   {
-    if (poolSize > 0)
+    iora::core::TimerServiceConfig c;
+    c.maxEpollEvents = p.cfgMaxEpollEvents;
+    c.throwOnSystemError = p.cfgThrowOnSysErr;
+    c.epollTimeout = std::chrono::milliseconds(p.cfgEpollTimeoutMs);
+    c.initialHeapCapacity = static_cast<std::size_t>(p.cfgHeapCap);
+    c.enableStatistics = p.cfgStats;
+    c.enableDetailedLogging = p.cfgDetailedLog;
+    c.limits.maxConcurrentTimers = static_cast<std::size_t>(p.cfgMaxTimers);
+    c.limits.maxPeriodicTimers = static_cast<std::size_t>(p.cfgMaxPeriodic);
+    c.limits.maxHeapSize = static_cast<std::size_t>(p.cfgMaxHeap);
+    c.limits.maxTimeout = std::chrono::minutes(p.cfgMaxTimeoutMin);
+    c.limits.maxHandlerExecutionTime = std::chrono::milliseconds(p.cfgMaxHandlerMs);
+    c.setThreadPriority = p.cfgSetPrio; // priority 0 is not a valid SCHED_FIFO priority: exercises the path, changes nothing
+    c.threadPriority = 0;
+    c.threadName = p.cfgThreadName == 0 ? "TimerService" : p.cfgThreadName == 1 ? "" : "c08-a-thread-name-longer-than-15";
+    return c;
+  }
+
+  explicit SvcTarget(const Plan &p) : poolSelect(p.poolSelect)
+  {
+    auto cfg = makeConfig(p);
+    if (p.poolSize > 0)
     {
-      pool = std::make_unique<TimerServicePool>(static_cast<std::size_t>(poolSize));
-      for (int i = 0; i < poolSize; ++i) all.push_back(&pool->getService());
+      if (p.cfgCustomLogger)
+        pool = std::make_unique<TimerServicePool>(static_cast<std::size_t>(p.poolSize), cfg, std::make_shared<QuietLogger>());
+      else
+        pool = std::make_unique<TimerServicePool>(static_cast<std::size_t>(p.poolSize), cfg);
     }
     else
     {
-      single = std::make_unique<TimerService>();
+      if (p.cfgCustomLogger)
+        single = std::make_unique<TimerService>(cfg, std::make_shared<QuietLogger>());
+      else
+        single = std::make_unique<TimerService>(cfg);
       all.push_back(single.get());
     }
   }
+  TimerService &pick(Slot &s, int idx)
+  {
+    if (!pool) return *single;
+    bool least = poolSelect == 1 || (poolSelect == 2 && ((s.p.delayNs / MS) + idx) % 2);
+    TimerService &t = least ? pool->getLeastLoadedService() : pool->getService();
+    std::lock_guard<std::mutex> lk(seenMu);
+    bool known = false;
+    for (auto *k : all)
+      if (k == &t) known = true;
+    if (!known) all.push_back(&t);
+    return t;
+  }
   std::uint64_t schedule(Slot &s, Fn fn) override
   {
-    TimerService &t = pool ? ((s.p.delayNs / MS) % 2 ? pool->getLeastLoadedService() : pool->getService()) : *single;
+    TimerService &t = pick(s, s.p.kind + s.p.api);
     s.svc.store(&t);
     if (s.p.kind == 1) return t.schedulePeriodic(ns(s.p.delayNs), std::move(fn));
     if (s.p.api == 1)
@@ -383,6 +445,7 @@ struct SvcTarget : Target
   long leftovers() override
   {
     long n = 0;
+    std::lock_guard<std::mutex> lk(seenMu);
     for (auto *t : all) n += static_cast<long>(t->getInFlightCount());
     return n;
   }
@@ -402,6 +465,7 @@ struct WheelTarget : Target
 {
   std::unique_ptr<TimingWheel> w;
   std::unique_ptr<iora::core::TimingWheelAdapter> ad;
+  std::atomic<long> errors{0};
   explicit WheelTarget(const Plan &p)
   {
     TimingWheel::Dispatcher d;
@@ -409,6 +473,7 @@ struct WheelTarget : Target
     w = std::make_unique<TimingWheel>(std::chrono::milliseconds(p.tickMs), static_cast<std::size_t>(p.ticksPerWheel),
                                       static_cast<std::size_t>(p.numWheels), d);
     if (p.viaAdapter) ad = std::make_unique<iora::core::TimingWheelAdapter>(*w);
+    if (p.wheelErrorCb) w->setErrorCallback([this](iora::core::TimerId, std::exception_ptr) { errors.fetch_add(1); });
     w->start();
   }
   std::uint64_t schedule(Slot &s, Fn fn) override
@@ -924,7 +989,7 @@ void runPlan(const Plan &plan, pbt::Case &c)
   if (plan.wheel)
     x->target = std::make_unique<WheelTarget>(plan);
   else
-    x->target = std::make_unique<SvcTarget>(plan.poolSize);
+    x->target = std::make_unique<SvcTarget>(plan);
 
   // ---- phase A: actors
   {
@@ -1157,7 +1222,9 @@ void runPlan(const Plan &plan, pbt::Case &c)
     if (restarted) c.label("restart (reset+start)");
     if (probeRounds) c.label("settle needed liveness probes (slow machine)");
     if (stalled) c.label("liveness probe stalled 30 s");
-    if (plan.poolSize) c.label("pool");
+    if (plan.poolSize) c.label(plan.poolSelect == 0 ? "pool: getService only" : plan.poolSelect == 1 ? "pool: getLeastLoadedService only" : "pool: mixed selection");
+    if (!plan.wheel && !plan.cfgStats) c.label("config: statistics off");
+    if (!plan.wheel && plan.cfgMaxTimers < 100) c.label("config: tight limits");
     bool earlyLife = false, drainFail = false, drainOk = false;
     for (const Event &e : x->trace.ev)
     {
@@ -1266,7 +1333,27 @@ Plan genSvc(pbt::Src &src)
   Plan p;
   p.wheel = false;
   p.nActors = static_cast<int>(src.range(1, 4));
-  p.poolSize = src.coin(1, 4) ? static_cast<int>(src.range(1, 3)) : 0;
+  p.poolSize = src.coin(1, 3) ? static_cast<int>(src.range(1, 4)) : 0;
+  p.poolSelect = static_cast<int>(src.range(0, 2));
+  // TimerServiceConfig: every field, defaults most likely
+  p.cfgStats = !src.coin(1, 3);
+  p.cfgDetailedLog = src.coin(1, 4);
+  p.cfgThrowOnSysErr = src.coin(1, 4);
+  p.cfgSetPrio = src.coin(1, 6);
+  p.cfgCustomLogger = src.coin(1, 4);
+  p.cfgMaxEpollEvents = src.oneOf<int>({16, 16, 1, 2, 64});
+  p.cfgEpollTimeoutMs = src.oneOf<int>({-1, -1, -1, 1, 7}); // 0 would busy-poll
+  p.cfgHeapCap = src.oneOf<int>({256, 256, 0, 1, 4096});
+  p.cfgThreadName = static_cast<int>(src.weighted({4, 1, 1}));
+  if (src.coin(1, 6))
+  {
+    // tight limits: scheduling may be refused on a running service (refusal is not a C08 violation)
+    p.cfgMaxTimers = src.oneOf<int>({10000, 6, 3});
+    p.cfgMaxPeriodic = src.oneOf<int>({1000, 1, 2});
+    p.cfgMaxHeap = src.oneOf<int>({50000, 4});
+    p.cfgMaxTimeoutMin = src.oneOf<int>({24 * 60, 10});
+    p.cfgMaxHandlerMs = src.oneOf<int>({30000, 1});
+  }
   p.restart = src.coin(1, 8);
   p.postStopProbes = static_cast<int>(src.range(0, 2));
   const bool lifecycle = src.coin(1, 2); // scripted drain/stop while timers are pending
@@ -1437,10 +1524,11 @@ Plan genWheel(pbt::Src &src)
   Plan p;
   p.wheel = true;
   p.tickMs = src.oneOf<int>({1, 2, 5});
-  p.ticksPerWheel = src.oneOf<int>({2, 4, 8});
+  p.ticksPerWheel = src.oneOf<int>({2, 4, 8, 2, 4, 8, 16});
   p.numWheels = static_cast<int>(src.range(1, 3));
   p.inlineDispatcher = src.coin(1, 10);
   p.viaAdapter = src.coin(1, 6);
+  p.wheelErrorCb = src.coin(1, 3);
   p.nActors = static_cast<int>(src.range(1, 4));
   p.restart = src.coin(1, 8);
   p.postStopProbes = static_cast<int>(src.range(0, 2));
@@ -1850,6 +1938,71 @@ PBT_REGRESSION(svc_schedule_races_stop)
     p.ops = {mkOp(1, 0, O_SCHED, 0), mkOp(0, 20 * MS, O_STOP)};
     runPlan(p, c);
   }
+}
+
+// Seeded change C08-I: with TimerServiceConfig::enableStatistics == false, cancel() of a
+// pending one-shot returned false although the handler never runs ("if it reports failure
+// on a running service the handler has run or will run exactly once").
+PBT_REGRESSION(svc_cancel_pending_oneshot_without_statistics)
+{
+  for (int pool = 0; pool < 2 && !c.failed(); ++pool)
+  {
+    Plan p;
+    p.nActors = 1;
+    p.postStopProbes = 0;
+    p.cfgStats = false;
+    p.poolSize = pool ? 2 : 0;
+    SlotPlan a;
+    a.delayNs = 30 * MS;
+    SlotPlan b;
+    b.api = 1;
+    b.delayNs = 25 * MS;
+    p.slots = {a, b};
+    p.ops = {mkOp(0, 0, O_SCHED, 0), mkOp(0, 0, O_SCHED, 1), mkOp(0, 1 * MS, O_CANCEL, 0), mkOp(0, 0, O_CANCEL, 1)};
+    runPlan(p, c);
+  }
+}
+
+// Seeded change C08-J: TimerServicePool::stop() stopped only the services its round-robin
+// cursor had reached; a pool used through getLeastLoadedService() (which does not move the
+// cursor) was not stopped at all: stop() returned at once, pending handlers started
+// afterwards and the "stopped" pool accepted new timers.
+PBT_REGRESSION(pool_stop_after_least_loaded_selection)
+{
+  Plan p;
+  p.poolSize = 3;
+  p.poolSelect = 1;
+  p.nActors = 1;
+  p.postStopProbes = 1;
+  SlotPlan a;
+  a.delayNs = 15 * MS;
+  a.sleepMs = 5;
+  SlotPlan probe;
+  probe.delayNs = 1 * MS;
+  p.slots = {a, probe};
+  p.ops = {mkOp(0, 0, O_SCHED, 0), mkOp(0, 2 * MS, O_STOP)};
+  runPlan(p, c);
+}
+
+// C08-J, mixed selection: one getService() call (cursor = 1), then a timer placed through
+// getLeastLoadedService() on the second service, which such a stop() never reaches; the
+// probe after stop() goes to that service through getService() and must be refused.
+PBT_REGRESSION(pool_stop_with_fewer_round_robin_calls_than_services)
+{
+  Plan p;
+  p.poolSize = 2;
+  p.poolSelect = 2;
+  p.nActors = 1;
+  p.postStopProbes = 1;
+  SlotPlan a; // (2 + 0) % 2 == 0 -> getService -> service 0
+  a.delayNs = 2 * MS;
+  SlotPlan b; // (21 + 0) % 2 == 1 -> getLeastLoadedService -> service 1 (service 0 has one pending timer)
+  b.delayNs = 21 * MS;
+  SlotPlan probe; // (2 + 0) % 2 == 0 -> getService -> cursor 1 -> service 1
+  probe.delayNs = 2 * MS;
+  p.slots = {a, b, probe};
+  p.ops = {mkOp(0, 0, O_SCHED, 0), mkOp(0, 0, O_SCHED, 1), mkOp(0, 1 * MS, O_STOP)};
+  runPlan(p, c);
 }
 
 // plain sanity: everything fires once, nothing early, stop refuses
